@@ -119,10 +119,10 @@ def vectors(ctx, streams):
                 df = rng.choice([17, 18, 20, 21, 17, 20, 4, 5, 11, 0, 16, 19, 24])
                 b.append(gen.rand_frame_df(rng, df))
             batches.append(b)
-        V.append({"fn": "net.run", "batches": batches})
+        V.append({"fn": "net.run", "batches": batches, "lower": rng.choice([0, 0, 1, 2])})
         if len(V) % 3 == 0:
             # the RTL-SDR source carries its own copy of the forwarding rule (outside C16's statement: drift only)
-            V.append({"fn": "net.run", "batches": batches, "src": "rtl"})
+            V.append({"fn": "net.run", "batches": batches, "src": "rtl", "lower": rng.choice([0, 1, 2])})
     return V
 
 
@@ -326,7 +326,7 @@ def run(ctx):
             ctx.drift_kinds[why] = ctx.drift_kinds.get(why, 0) + 1
             continue
         small = {"fn": e["fn"], "id": e["id"], "kind": e.get("kind"), "frs": e.get("frs"), "cuts": e.get("cuts"),
-                 "batches": e.get("batches"), "src": e.get("src", "net"), "res": e["res"]}
+                 "batches": e.get("batches"), "src": e.get("src", "net"), "lower": e.get("lower", 0), "res": e["res"]}
         ctx.violation(why, small)
 
 
@@ -341,7 +341,7 @@ def replay(ctx, path):
         elif e["fn"] == "link.run":
             continue
         else:
-            V.append({"fn": "net.run", "batches": e["batches"], "src": e.get("src", "net")})
+            V.append({"fn": "net.run", "batches": e["batches"], "src": e.get("src", "net"), "lower": e.get("lower", 0)})
     L = [{"fn": "link.run", "kind": c["event"]["kind"], "frs": c["event"]["frs"], "cuts": c["event"]["cuts"], "times": c["event"]["times"],
           "rx": c["event"]["rx"]} for c in cases if c["event"]["fn"] == "link.run"]
     if L:
